@@ -202,7 +202,7 @@ def gname(f):
 
 def kb3(P, C):
     C.rule("KB-3", "gradient evaluation: the `ndim+1 > MAXDIM` throw dominates every lane store and the core call; NVECS*VECTOR_SIZE >= MAXDIM; "
-           "the lane loop runs to ndim+1; every per-dimension vector core that can be reached below the cap uses at most NVECS vectors", floor=10)
+           "the lane loop runs to ndim+1; every per-dimension vector core that can be reached below the cap uses at most NVECS vectors", floor=30)
     for f in gradient_fns(P):
         name = gname(f)
         at = vg.atomizer(f, ())
@@ -793,7 +793,7 @@ def _refine(f, node, env, left):
 def kb5(P, C):
     C.rule("KB-5", "every knots[e] read and every output/scratch store in the basis kernels has an affine index whose range — from left in "
            "[-1, nknots-1] (the margin-shift guards), the enclosing loop ranges and the call-site arguments of bsplvb — lies inside the padded "
-           "knot array [-order, nknots-1+order], the order+1 output slots and the scratch arrays", floor=40)
+           "knot array [-order, nknots-1+order], the order+1 output slots and the scratch arrays", floor=120)
     n_ob = 0
     bs = {tuple(g.targs): g for g in P.fns("bsplvb") if g.unit == "driver"}
     for f in kernels(P):
@@ -918,7 +918,7 @@ def kb6f(P, C, floor=4):
     return n
 
 
-def kb8(P, C, floor=20):
+def kb8(P, C, floor=150):
     """KB-8: a stack array of constant extent is not indexed by a loop variable whose range grows with a runtime quantity."""
     C.rule("KB-8", "every local array of constant extent (a template parameter, PHOTOSPLINE_MAXDIM, a literal) that is subscripted by a loop "
            "variable has, at each such subscript, an upper bound of the index that is a constant below the extent — an index whose range "
